@@ -281,6 +281,37 @@ def hist : P String := do
   let out := hrun ev inv6 inv4 computeSimple dq (hinit d dq) ops
   pure (s!"{flags.2} {descNat out.1.st.desc} " ++ flist out.2)
 
+/-! ### array calls of `compute` -/
+/-- `np.allclose(ri / ri[0], rp / rp[0])` (rtol 1e-5, atol 1e-8): the test of the reuse-previous-row variant -/
+def sameShapeF (p r : V3 Float) : Bool :=
+  let ok (k : Fin 3) : Bool :=
+    let a := r k / r 0; let b := p k / p 0
+    Float.abs (a - b) <= 1e-8 + 1e-5 * Float.abs b
+  ok 1 && ok 2
+
+/-- el.rows desc0 nq quad… nops (S op | Q k)… nrows r(3)… nidx idx…
+    → final description | computeRows (one single-row energy per row) | the reuse-previous-row VARIANT |
+      computeRows of rows[idx] | (computeRows of rows)[idx] -/
+def rowsV : P String := do
+  let d ← pdesc
+  let quads ← lst pquad
+  let qa := quads.toArray
+  let dq : Quad Float := qa.getD 0 { nodes := [], dA := 0.0 }
+  let ops ← lst (phop qa)
+  let rows ← lst pv3
+  let idx ← lst nat
+  let h := (hrun ev inv6 inv4 computeSimple dq (hinit d dq) ops).1
+  let f := computeOf ev inv4 computeSimple h
+  let res := computeRows f rows
+  let d0 : V3 Float := v3Of #[0.0 / 0.0, 0.0 / 0.0, 0.0 / 0.0]
+  -- f is a pure function of the row: for the two further evaluations below a row already evaluated is looked up
+  let fm : V3 Float → Float := fun r =>
+    match (rows.zip res).find? (fun pe => pe.1 0 == r 0 && pe.1 1 == r 1 && pe.1 2 == r 2) with
+    | some pe => pe.2
+    | none => f r
+  pure (s!"{descNat h.st.desc} " ++ flist res ++ " " ++ flist (computeRowsReuse sameShapeF fm rows) ++ " " ++
+        flist (computeRows fm (takeRows d0 rows idx)) ++ " " ++ flist (takeRows (0.0 / 0.0) res idx))
+
 def handle (verb : String) : Option (P String) :=
   match verb with
   | "el.gen.moduli" => some genModuli
@@ -299,6 +330,7 @@ def handle (verb : String) : Option (P String) :=
   | "el.seq" => some seq
   | "el.fam" => some fam
   | "el.hist" => some hist
+  | "el.rows" => some rowsV
   | _ => none
 
 end KawinV.Drv.C16
